@@ -57,6 +57,8 @@ def cells(tier):
                         'shape': shape})
         out.append({'kind': 'rounds', 'backend': 'dict', 'n': 2, 'rounds': 3,
                     'shape': 'mapping-rev'})
+        out.append({'kind': 'rounds', 'backend': 'shelf', 'n': 3, 'rounds': 2,
+                    'shape': 'mapping'})
         # the same address at two positions of the envelope
         out.append({'kind': 'rounds', 'backend': 'dict', 'n': 3, 'rounds': 2,
                     'shape': 'mapping', 'dup': 1})
